@@ -295,6 +295,7 @@ type XMPStyle struct {
 	SelfClose   bool   // attribute-only description closed with "/>"
 	LangAttr    bool   // xml:lang on alt items
 	PadBeforeGT int
+	EndTagWS    string // white space between the name and '>' of end tags (legal XML: "</a:b >")
 }
 
 // RandXMPStyle draws a style. exotic enables TAB / CR LF separators.
@@ -337,6 +338,12 @@ func RandXMPStyle(r *core.Rng, exotic bool) XMPStyle {
 	}
 	if exotic && r.Chance(1, 4) {
 		st.PadBeforeGT = r.Range(1, 40)
+	}
+	if r.Chance(1, 4) {
+		st.EndTagWS = r.PickStr(" ", "\n", "  ", " \n ")
+		if exotic {
+			st.EndTagWS = r.PickStr(" ", "\n", "\t ", "\r\n", "   ")
+		}
 	}
 	st.Unknown = r.Pick(0, 0, 1, 3, 8)
 	st.SplitDesc = r.Chance(1, 4)
@@ -411,7 +418,7 @@ func (rec *XMPRec) Serialise(r *core.Rng, st XMPStyle, forceForm int) []byte {
 			}
 			switch p.Kind {
 			case "simple":
-				elems = append(elems, fmt.Sprintf("<%s:%s>%s</%s:%s>", p.NS, p.Name, p.Values[0], p.NS, p.Name))
+				elems = append(elems, fmt.Sprintf("<%s:%s>%s</%s:%s%s>", p.NS, p.Name, p.Values[0], p.NS, p.Name, st.EndTagWS))
 			default:
 				cont := map[string]string{"seq": "Seq", "bag": "Bag", "alt": "Alt"}[p.Kind]
 				var b strings.Builder
@@ -422,12 +429,12 @@ func (rec *XMPRec) Serialise(r *core.Rng, st XMPStyle, forceForm int) []byte {
 						if i > 0 {
 							lang = []string{"en-US", "de-DE", "fr", "ja-JP"}[i%4]
 						}
-						fmt.Fprintf(&b, "%s%s<rdf:li xml:lang=%s%s%s>%s</rdf:li>%s", st.Indent, st.Indent, q, lang, q, v, st.NL)
+						fmt.Fprintf(&b, "%s%s<rdf:li xml:lang=%s%s%s>%s</rdf:li%s>%s", st.Indent, st.Indent, q, lang, q, v, st.EndTagWS, st.NL)
 					} else {
-						fmt.Fprintf(&b, "%s%s<rdf:li>%s</rdf:li>%s", st.Indent, st.Indent, v, st.NL)
+						fmt.Fprintf(&b, "%s%s<rdf:li>%s</rdf:li%s>%s", st.Indent, st.Indent, v, st.EndTagWS, st.NL)
 					}
 				}
-				fmt.Fprintf(&b, "%s</rdf:%s>%s</%s:%s>", st.Indent, cont, st.NL, p.NS, p.Name)
+				fmt.Fprintf(&b, "%s</rdf:%s%s>%s</%s:%s%s>", st.Indent, cont, st.EndTagWS, st.NL, p.NS, p.Name, st.EndTagWS)
 				elems = append(elems, b.String())
 			}
 		}
@@ -461,7 +468,7 @@ func (rec *XMPRec) Serialise(r *core.Rng, st XMPStyle, forceForm int) []byte {
 		for _, el := range elems {
 			sb.WriteString(st.Indent + st.Indent + st.Indent + el + st.NL)
 		}
-		sb.WriteString(st.Indent + st.Indent + "</rdf:Description>" + st.NL)
+		sb.WriteString(st.Indent + st.Indent + "</rdf:Description" + st.EndTagWS + ">" + st.NL)
 	}
 	sb.WriteString(st.Indent + "</rdf:RDF>" + st.NL)
 	sb.WriteString("</x:xmpmeta>" + st.NL)
